@@ -2,7 +2,7 @@
    oracle (fdiv, fmul, fround) and every matrix-inverse oracle: they are universally quantified. *)
 From Coq Require Import ZArith List Bool String.
 From PV Require Import Base.Tok Base.TokArith Base.NpSearch C04.Model C04.Proofs C04.Model2 C04.Spec C04.Proofs2 C04.Params
-  C04.ParamsProofs C04.Link.
+  C04.ParamsProofs C04.Link C04.Proofs3.
 From PV Require C01.Model C02.Model C02.Spec.
 Import ListNotations.
 Open Scope string_scope.
@@ -200,6 +200,28 @@ Theorem C04_loadx_load : forall fdiv fmul fround inv fs rate ncd mx,
 Proof. exact loadx_inv. Qed.
 Print Assumptions C04_loadx_load.
 
+(* ---- error exits ---- *)
+(* the missing-file exit (IOError in phylib) is taken only when a MANDATORY role -- spike times, spike templates,
+   channel map, channel positions -- has no file under any name of its priority list: no absent optional file
+   (clusters, amplitudes, shanks, probes, whitening, inverse, similar templates, column table, reordered times,
+   extra attributes) ever makes loading fail *)
+Theorem C04_missing_exit : forall fdiv fmul fround inv fs rate ncd,
+  loadx fdiv fmul fround inv fs rate ncd = XErr EMissing ->
+  (src P_times_ks fs = None /\ src P_times_alf fs = None) \/ src P_stemplates fs = None \/
+  src P_cmap fs = None \/ src P_pos fs = None.
+Proof. exact loadx_missing. Qed.
+Print Assumptions C04_missing_exit.
+
+(* the conflicting-files exit: exactly when what precedes the cluster file loads and BOTH spike_clusters.npy and a
+   file spikes.clusters*.npy exist *)
+Theorem C04_conflict_exit : forall fdiv fmul fround inv fs rate ncd,
+  loadx fdiv fmul fround inv fs rate ncd = XConflict <->
+  (exists ns, load_head fdiv fmul fround fs rate = Ok ns) /\
+  (exists kv, In kv fs /\ fst kv = "spike_clusters.npy") /\
+  (exists kv, In kv fs /\ glob1 "spikes.clusters" ".npy" (fst kv) = true).
+Proof. intros. rewrite loadx_conflict, conflict_iff. tauto. Qed.
+Print Assumptions C04_conflict_exit.
+
 (* ---- the three construction routes pass the same constructor arguments ---- *)
 Theorem C04_routes_agree : forall dir names dtype offset rate ncd,
   is_abs dir = true -> Forall (fun n => is_abs n = false) names -> tok_eqb rate tzero = false ->
@@ -269,3 +291,9 @@ Example C04_ex_traces_reader :
       [C02.Model.OCols (C01.Model.CList [2; 0])] (C01.Model.ISlice (Some 1) (Some 3) None) None =
     Some (C02.Model.GRows (C02.Model.mkarr 0 2 [[TNum 3 1; TNum 1 2]; [TNum 9 0; TNum 7 0]])).
 Proof. split; [vm_compute; reflexivity|]. split; [|vm_compute; reflexivity]. apply C02.Spec.row_item_b_spec. vm_compute. reflexivity. Qed.
+(* a directory without a channel-map file leaves by the missing-file exit; without the optional files it loads *)
+Example C04_ex_missing :
+  loadx ex_div ex_mul ex_round (fun a => a) (filter (fun kv => negb (String.eqb (fst kv) "channels.rawInd.npy")) ex_files)
+        (TNum 1 1) (Some 2) = XErr EMissing /\
+  src P_cmap (filter (fun kv => negb (String.eqb (fst kv) "channels.rawInd.npy")) ex_files) = None.
+Proof. vm_compute. split; reflexivity. Qed.
